@@ -78,7 +78,8 @@ type sess struct {
 	unstable bool   // a quiescence wait timed out: the run says nothing
 	dispID   string // goroutine id of this queue's dispatcher
 	onStep   func(Step)
-	hung     bool // a synchronous call of the script never returned: the script ends there
+	opts     []Opt // the NewQueue options, in the order they were passed
+	hung     bool  // a synchronous call of the script never returned: the script ends there
 	onIntent func(Stim)
 	stopped  bool
 }
@@ -178,14 +179,46 @@ func quiesce() bool {
 	}
 }
 
-func newSess(W, L int) *sess {
-	s := &sess{W: W, L: L, startCh: make(chan int, 4096)}
+// Opt is one NewQueue option: K = "w" (WithWorkers) or "l" (WithQueueLength); the list is passed in order.
+type Opt struct {
+	K string `json:"k"`
+	N int    `json:"n"`
+}
+
+// effectiveCfg is the harness' own reading of an option list (defaults NumCPU / 2*NumCPU, last one wins).  It only
+// steers the generators (how many items fill the queue); the expectation the observations are compared with is
+// computed in Coq from the option list (Model/WQ.v effective).
+func effectiveCfg(opts []Opt) (int, int) {
+	W, L := runtime.NumCPU(), 2*runtime.NumCPU()
+	for _, o := range opts {
+		if o.K == "w" {
+			W = o.N
+		} else {
+			L = o.N
+		}
+	}
+	return W, L
+}
+
+func newSess(W, L int) *sess { return newSessOpts([]Opt{{"w", W}, {"l", L}}) }
+
+func newSessOpts(opts []Opt) *sess {
+	W, L := effectiveCfg(opts)
+	s := &sess{W: W, L: L, opts: opts, startCh: make(chan int, 4096)}
 	quiesce()
 	old := map[string]bool{}
 	for id := range dispState {
 		old[id] = true
 	}
-	s.q = workqueue.NewQueue(workqueue.WithWorkers(W), workqueue.WithQueueLength(L))
+	qo := make([]workqueue.WorkQueueOption, len(opts))
+	for i, o := range opts {
+		if o.K == "w" {
+			qo[i] = workqueue.WithWorkers(o.N)
+		} else {
+			qo[i] = workqueue.WithQueueLength(o.N)
+		}
+	}
+	s.q = workqueue.NewQueue(qo...)
 	if !quiesce() {
 		s.unstable = true
 	}
@@ -281,14 +314,18 @@ func (s *sess) do(st Stim) Obs {
 			}
 			return s.errOf(r)
 		}
+		// the Enqueue options in every order (by item index); priority 1 is the default, so for every second such item
+		// WithPriority is left out (for an item with an adjust function the priority then comes from that function alone)
+		eo := sliceOf(workqueue.WithName(strconv.Itoa(it.idx)))
+		if !(it.prio == 1 && it.idx%2 == 1) {
+			eo = append(eo, workqueue.WithPriority(it.prio))
+		}
+		if it.adj {
+			eo = append(eo, workqueue.WithAdjustPriority(func() int { it.consults.Add(1); return int(it.adjVal.Load()) }))
+		}
+		eo = permute(eo, it.idx/2)
 		go func() {
-			var id uuid.UUID
-			if it.adj {
-				id = s.q.Enqueue(work, workqueue.WithPriority(it.prio), workqueue.WithName(strconv.Itoa(it.idx)),
-					workqueue.WithAdjustPriority(func() int { it.consults.Add(1); return int(it.adjVal.Load()) }))
-			} else {
-				id = s.q.Enqueue(work, workqueue.WithPriority(it.prio), workqueue.WithName(strconv.Itoa(it.idx)))
-			}
+			id := s.q.Enqueue(work, eo...)
 			it.id = id
 			it.returned.Store(true)
 		}()
@@ -384,6 +421,23 @@ func (s *sess) do(st Stim) Obs {
 		s.onStep(Step{st, o})
 	}
 	return o
+}
+
+// sliceOf / permute let the harness build and reorder a list of the package's (unexported) Enqueue option type.
+func sliceOf[T any](xs ...T) []T { return xs }
+
+func permute[T any](xs []T, k int) []T {
+	n := len(xs)
+	if n < 2 {
+		return xs
+	}
+	r := make([]T, 0, n)
+	r = append(r, xs[k%n:]...)
+	r = append(r, xs[:k%n]...)
+	if (k/n)%2 == 1 {
+		r[0], r[1] = r[1], r[0]
+	}
+	return r
 }
 
 func (s *sess) errOf(k int) error {
